@@ -78,6 +78,14 @@ fn main() {
             let mut o = util::Out::create(&out);
             let mut rng = util::Rng::new(seed);
             let mut fails = 0;
+            for (name, p, trig, manual) in rc::corpus_triggered() {
+                let (line, mon) = rc::run_case_triggered(&p, &mut rng, trig, manual);
+                o.line(&line);
+                for m in mon {
+                    fails += 1;
+                    o.line(&format!("{} [corpus {}]", m, name));
+                }
+            }
             for (name, p, script, manual) in rc::corpus() {
                 let (line, mon) = rc::run_case_tuned(&p, &mut rng, Some(script), Some(manual));
                 o.line(&line);
@@ -87,7 +95,11 @@ fn main() {
                 }
             }
             for _ in 0..n {
-                let p = if rng.chance(1, 3) { rc::gen_chain_program(&mut rng, thorough) } else { rc::gen_program(&mut rng, thorough) };
+                let p = match rng.below(6) {
+                    0 | 1 => rc::gen_chain_program(&mut rng, thorough),
+                    2 => if rng.chance(1, 2) { rc::gen_weak_program(&mut rng, thorough) } else { rc::gen_bulk_program(&mut rng, thorough) },
+                    _ => rc::gen_program(&mut rng, thorough),
+                };
                 let (line, mon) = rc::run_case(&p, &mut rng, None);
                 o.line(&line);
                 for m in mon {
